@@ -290,10 +290,12 @@ def main(argv_tier=None, replay_path=None):
     vio_out += [("", "")] * max(0, len(viol) - 20)
     nontrivial = len({tuple(t["history"]) for t in traces
                       if any(e.get("out") == "ok" for e in t["ev"])})
-    from common import apalache_inductive
+    from common import apalache_inductive, tlaps_prove
     apa = apalache_inductive("APA_ServerSM", "SMInit", "SMNext", "IndInit", "IndInv")
+    tlaps = tlaps_prove("ServerSM_proofs")
     cov = {
         "apalache_inductive_invariant": apa,
+        "tlaps_proof": tlaps,
         "states": r.distinct, "transitions": r.generated,
         "traces_validated_against_impl": len(traces),
         "trace_validation_states": agg["distinct"],
